@@ -288,6 +288,11 @@ pub enum PublisherServiceMail {
         datawriter_handle: InstanceHandle,
         reply_sender: OneshotSender<DdsResult<()>>,
     },
+    DeleteContainedEntities {
+        participant_handle: InstanceHandle,
+        publisher_handle: InstanceHandle,
+        reply_sender: OneshotSender<DdsResult<()>>,
+    },
     GetDefaultDataWriterQos {
         participant_handle: InstanceHandle,
         publisher_handle: InstanceHandle,
@@ -333,6 +338,11 @@ pub enum SubscriberServiceMail {
         participant_handle: InstanceHandle,
         subscriber_handle: InstanceHandle,
         datareader_handle: InstanceHandle,
+        reply_sender: OneshotSender<DdsResult<()>>,
+    },
+    DeleteContainedEntities {
+        participant_handle: InstanceHandle,
+        subscriber_handle: InstanceHandle,
         reply_sender: OneshotSender<DdsResult<()>>,
     },
     LookupDataReader {
